@@ -77,3 +77,16 @@ PROPS['C17'] = dict(
     level_note='Trusted: Coq kernel, extraction, the field-table translator (go/ast), harness. Oracles: time.Parse(RFC3339), net.ParseIP, whatwg-url parsing, strings.ToLower on non-ASCII. "Well-formed" for time/IP/URI IS the oracle; integers and bracketed ids are modelled exactly. The reference table is the pinned table, not ISO 28500 (not available offline). Findings are compared by coarse kind derived from the error text.',
     assumptions=['header sets are canonical (every name went through WarcFields.Add)', 'reference table = the table at the pinned commit'],
 )
+
+PROPS['C19'] = dict(
+    id='C19',
+    domains=['hparse', 'hapi'],
+    n=dict(quick=dict(hparse=3000, hapi=1500), thorough=dict(hparse=150000, hapi=50000)),
+    theorems=[('Properties.C19', ['C19_clean_fields_survive_serialize_then_parse', 'C19_added_token_fields_are_clean', 'C19_fixpoint_refuted'])],
+    rule='hparse: header sections assembled from a pool of lines (valid, folded, bare LF, CR CR LF, missing colon, empty name, MIME encoded-words incl. ones decoding to CR LF or to another encoded-word, non-ASCII, control bytes), random line ends, byte flips and truncation, 3 syntax policies, EOF or injected read error after the data, source chunkings 0/1/3/64; every 40th case is a 9 KB well-formed section whose line ends sweep bufio\'s 4096-byte boundary. hapi: field sets built with Add from token names and CR/LF-free values (incl. edge blanks, NBSP, encoded-words), serialized and parsed. Executable statement evaluated on the implementation for every accepted input: parse(serialize(parse x)) = parse x with no findings. distinct = distinct implementation observations; non-trivial = the parser returned fields',
+    nontrivial=lambda c, o: o.startswith('nil'),
+    stats=lambda c, o: [c.split()[0] + ':' + o.split(';')[0], 'policy:' + c.split()[1]],
+    level_text='Proved in Coq (C19_clean_fields_survive_serialize_then_parse): every non-empty field list with canonical colon-free names, LF-free and edge-blank-free names and values and no "=?" parses back from its serialization to exactly itself, under every syntax policy, whatever follows in the stream and whatever the MIME decoder does, with no finding and nothing consumed beyond the blank line (unbounded lists, induction). The unrestricted first sentence is false of the faithful model and of the code: C19_fixpoint_refuted exhibits the smuggling witness (kept as a known finding: encoded-words are decoded into values that may contain CR LF). PARTIAL: that every list the parser returns from "=?"-free input satisfies the hypotheses of the theorem is not yet proved; it is checked on the implementation by the executable statement parse(serialize(parse x)) = parse x, no findings, for every generated input. Model tied to warcfieldsParser.Parse by differential runs (fields, finding count, error class, bytes consumed).',
+    level_note='Trusted: Coq kernel, extraction, harness. Oracle: mime.WordDecoder.DecodeHeader for lines containing "=?" (Go\'s identity fast path for other lines is modelled); strings.ToLower on non-ASCII names. bufio.Reader is abstracted to remaining bytes + a persistent EOF/error tail; its internal 4096-byte chunking is exercised by the generator (9 KB sections sweeping the boundary) but not modelled. Reading of the text: the blank line belongs to the marshaler, an empty field list serializes to the empty string.',
+    assumptions=['bufio.Reader.ReadBytes/Peek behave as on an unbounded byte list with a persistent tail condition'],
+)
